@@ -239,12 +239,77 @@ static void call_error_api(Ctx &c) {
   xrl_error_free(e);
 }
 
+static void call_private_array(Ctx &c) {
+  // a collection owned by the calling thread alone: init, load a generated definition file, add one crystal, list, look up, free.
+  // Nothing here is shared with other threads, so the documentation promises the same outcome as in a serial run.
+  int cap = c.geti();
+  const char *text = c.gets();
+  const char *query = c.gets();
+  Crystal_Array *a = Crystal_ArrayInit(cap, NULL);
+  if (!a) { c.result = "pa:noinit"; return; }
+  char path[256];
+  snprintf(path, sizeof path, "%s/xrlv.pa.%d.%lx.dat", getenv("VERIF_TMP") ? getenv("VERIF_TMP") : "/var/tmp", (int) getpid(), (unsigned long) pthread_self());
+  FILE *f = fopen(path, "w");
+  if (!f) { Crystal_ArrayFree(a); c.result = "pa:nofile"; return; }
+  fputs(text ? text : "", f);
+  fclose(f);
+  int rv = Crystal_ReadFile(path, a, c.err());
+  unlink(path);
+  Crystal_Atom at[2] = {{14, 1.0, 0.0, 0.0, 0.0}, {8, 0.5, 0.25, 0.25, 0.25}};
+  Crystal_Struct own;
+  char own_name[] = "zz_private_entry";
+  own.name = own_name; own.a = 4.0; own.b = 5.0; own.c = 6.0; own.alpha = 90; own.beta = 100; own.gamma = 90; own.volume = 0; own.n_atom = 2; own.atom = at;
+  int rv2 = Crystal_AddCrystal(&own, a, NULL);
+  int n = -1;
+  char **names = Crystal_GetCrystalsList(a, &n, NULL);
+  std::string s = "pa:rv=" + std::to_string(rv) + ";add=" + std::to_string(rv2) + ";n=" + std::to_string(n) + ";";
+  if (names) { for (int i = 0; names[i]; i++) { s += hexenc(names[i]) + ","; xrlFree(names[i]); } xrlFree(names); }
+  Crystal_Struct *q = query ? Crystal_GetCrystal(query, a, NULL) : NULL;
+  if (q) {
+    s += ";q=" + fd(q->volume) + ":" + std::to_string(q->n_atom) + ":" + fd(Crystal_dSpacing(q, 1, 1, 1, NULL));
+    for (int i = 0; i < q->n_atom; i++) s += ":" + std::to_string(q->atom[i].Zatom) + "/" + fd(q->atom[i].fraction) + "/" + fd(q->atom[i].x);
+    Crystal_Free(q);
+  } else s += ";q=none";
+  Crystal_ArrayFree(a);
+  c.result = s;
+}
+
+#ifndef XRLCALL_CPP_WRAPPERS
+static void call_addcrystal(Ctx &c) {
+  // insertion into the built-in collection (mutates global state: the caller runs this in a process of its own)
+  // mode 0: a copy of an existing entry under its own name (duplicate); mode 1: fill to capacity, then one more
+  int mode = c.geti();
+  Crystal_Struct *si = Crystal_GetCrystal("Si", NULL, NULL);
+  if (!si) { c.result = "add:nosi"; return; }
+  if (mode == 1) {
+    for (int k = 0; k < 10 * CRYSTALARRAY_MAX; k++) {
+      int n = 0; char **l = Crystal_GetCrystalsList(NULL, &n, NULL);
+      if (l) { for (int i = 0; l[i]; i++) xrlFree(l[i]); xrlFree(l); }
+      if (n >= CRYSTALARRAY_MAX) break;
+      char nm[32]; snprintf(nm, sizeof nm, "zz_fill_%04d", k);
+      char *old = si->name; si->name = nm;
+      int rv = Crystal_AddCrystal(si, NULL, NULL);
+      si->name = old;
+      if (rv != 1) { c.result = "add:fill-failed"; Crystal_Free(si); return; }
+    }
+    char extra[] = "one_too_many"; char *old = si->name; si->name = extra;
+    c.ret_i(Crystal_AddCrystal(si, NULL, c.err()));
+    si->name = old;
+  } else {
+    c.ret_i(Crystal_AddCrystal(si, NULL, c.err()));
+  }
+  Crystal_Free(si);
+}
+#endif
+
 typedef void (*callfn)(Ctx &);
 static callfn lookup(const std::string &name) {
   for (auto &e : GEN_TABLE) if (name == e.name) return e.fn;
   if (name == "add_compound_data") return call_add_compound_data;
   if (name == "Crystal_ArrayInit") return call_Crystal_ArrayInit;
   if (name == "@error_api") return call_error_api;
+  if (name == "@private_array") return call_private_array;
+  if (name == "@addcrystal") return call_addcrystal;
   return NULL;
 }
 
